@@ -751,3 +751,27 @@ func (s *sess) checkFiles(snap *server.VerifSnap) {
 		s.fail("gcaPubKey.dat exists although no registration was accepted")
 	}
 }
+
+// crossCheckFilesAndEquipment compares GET /equipment and the data files with the model.
+func (s *sess) crossCheckFilesAndEquipment() {
+	s.t.Helper()
+	snap := s.S.VerifSnapshot()
+	st, body, err := s.S.Get("/api/v1/equipment")
+	if err != nil || st != 200 {
+		s.fail("GET equipment failed: %v %d", err, st)
+	}
+	var er server.EquipmentResponse
+	if err := json.Unmarshal(body, &er); err != nil {
+		s.fail("equipment reply does not parse: %v", err)
+	}
+	if len(er.EquipmentDetails) != len(s.M.Devices) {
+		s.fail("GET equipment lists %d devices, model %d", len(er.EquipmentDetails), len(s.M.Devices))
+	}
+	for id, a := range s.M.Devices {
+		g, ok := er.EquipmentDetails[id]
+		if !ok || !bytes.Equal(world.FromGlowAuth(g).Encode(), a.Encode()) {
+			s.fail("GET equipment: device %d missing or altered in transport (lat %v lon %v)", id, a.Latitude, a.Longitude)
+		}
+	}
+	s.checkFiles(snap)
+}
